@@ -49,9 +49,8 @@ Proof.
   destruct (hd_pick ch) as [c ch0].
   pose proof (sb_send_wire (set_sess y x se) x (mkW 4294967295 0 2 []) c) as H.
   destruct (sb_send _ _ _ c) as [[y2 e2] rc]. cbn in H.
-  destruct (rc =? 0).
-  - pose proof (close_all_wire y2 x) as H2. destruct (close_all y2 x) as [y3 e3]. cbn in *. apply wire_app; assumption.
-  - destruct (rc =? 1); exact H.
+  pose proof (close_all_wire y2 x) as H2. destruct (close_all y2 x) as [y3 e3]. cbn in H2.
+  destruct (rc =? 0); [|destruct (rc =? 1)]; cbn; apply wire_app; assumption.
 Qed.
 Lemma close_stream_wire y x sid active ch : wire_only (snd (fst (close_stream y x sid active ch))).
 Proof.
